@@ -600,3 +600,13 @@ def lean_lemmas(ctx):
     set_fixed_node_entries over successive calls is the mean of all fixed values at the node."""
     ctx.lean("L1/affine-row-exact-after-full-step", ["L1_affine_row_exact"])
     ctx.lean("mean/running-mean-over-successive-calls", ["running_mean", "running_mean_first"])
+
+
+@unit("C03", "fixed_node_entries/counters_reset", functions=["pandapipes.component_models.junction_component:Junction.create_pit_node_entries"],
+      engine="E3")
+def counters_reset(ctx):
+    """precondition of the running mean: the occurrence counters are 0 on every junction row after the junction
+    writer, on every path (also when the pit is re-used between transient time steps)"""
+    ctx.assume("A1", "A4", "A6", "A7")
+    from contracts.C01 import junction_accumulators_reset
+    junction_accumulators_reset(ctx, ["EXT_GRID_OCCURENCE", "EXT_GRID_OCCURENCE_T"])
